@@ -420,3 +420,24 @@ Print Assumptions C02_on_C01_histories.
 Print Assumptions C02_best_is_min_from.
 Print Assumptions C02_task_ends_in_a_start.
 Print Assumptions C02_best_is_min.
+
+(* ------------------------------------------------------------------ histories in full generality (Analysis/Tasks.v)
+   Every task of the history with its OWN optimizer, objective, iteration count, local arrays and draw stream (observer
+   hook).  The start condition [c02_start] does not mention the objective; each task satisfies the one-task claim for ITS
+   objective w.r.t. the best agent it inherited (which may stem from another objective), and leaves a start state. *)
+From OV Require Import Analysis.Tasks.
+
+Definition c02_task_ok (t : task) : Prop := c02r_check (tp t) = true /\ thk t = bhk.
+
+Theorem C02_task_histories_general :
+  forall (lbs ubs : list Z), Forall2 (fun l h => kle l h = true) lbs ubs ->
+  forall ts x0 rs x', Forall c02_task_ok ts -> c02_start lbs ubs x0 -> thist lbs ubs okc_std ts x0 rs x' ->
+    Forall2 (fun t r => task_ok lbs ubs (tf t) r) ts rs /\ c02_start lbs ubs x'.
+Proof.
+  intros lbs ubs Hb ts x0 rs x' HQ H0 Ht.
+  apply (thist_inv lbs ubs okc_std (c02_start lbs ubs) c02_task_ok (fun t r => task_ok lbs ubs (tf t) r)) with (x0 := x0); try assumption.
+  - intros x lc H. apply c02_start_with_loc. exact H.
+  - intros t xs x1 evs o1 [Hc Hh] HI Hr. rewrite Hh in Hr.
+    destruct (c02r_of_check_from lbs ubs (tf t) (tn t) Hb (tp t) Hc (tor t) xs x1 evs o1 HI Hr) as (K1 & K2 & K3 & K4).
+    split; [|exact K4]. split; [exact HI|split; [exact K1|split; [exact K2|split; [exact K3|exact K4]]]].
+Qed.
